@@ -47,6 +47,57 @@ def translate():
     return None
 
 
+def translate_source():
+    """source-level translation of the small pure classes (tools/pysrc2lean.py); {class: 'ok' | reason}"""
+    out = os.path.join(LEAN, 'UbxModel', 'Gen', 'Src.lean')
+    try:
+        r = sh([PY, os.path.join(ROOT, 'tools', 'pysrc2lean.py'), REPO, out], timeout=120)
+        return json.loads(r.stdout.strip().splitlines()[-1])
+    except Exception as e:
+        # keep the library buildable: an empty translation
+        open(out, 'w').write('/-! source-level translation failed on this tree -/\n')
+        return {c: 'untranslatable: translator failed (' + type(e).__name__ + ')' for c in ('Checksum', 'UbxParser', 'NmeaParser', 'UbxFrame')}
+
+
+SRC_THEOREMS = {
+    'Checksum': ['ck_reset', 'ck_add', 'ck_value', 'ck_matches'],
+    'UbxFrame': ['frame_calc', 'frame_to_bytes'],
+    'UbxParser': ['ubx_reset', 'ubx_step', 'ubx_process', 'ubx_restart', 'ubx_empty_queue', 'ubx_set_filter', 'ubx_set_filters'],
+    'NmeaParser': ['nmea_to_bin', 'nmea_step', 'nmea_process', 'nmea_restart'],
+}
+
+
+def source_tie(prop):
+    """for the classes the property rests on: is the definition generated from the source proved equal to the model?"""
+    classes = plan.PROPS[prop].get('source_tie', [])
+    if not classes:
+        return {}
+    status = translate_source()
+    res = {}
+    for c in classes:
+        if status.get(c) != 'ok':
+            res[c] = 'unavailable on this tree (' + str(status.get(c))[:200] + '); the tie rests on the correspondence check'
+            continue
+        ok, errs = lake_build([f'UbxModel.Proofs.SrcEquiv.{c}'], timeout=600)
+        if not ok:
+            res[c] = 'translated, but the equivalence with the model no longer checks: ' + ' | '.join(errs)[:300]
+            continue
+        path = os.path.join(LEAN, f'.audit_src_{prop}_{c}.lean')
+        with open(path, 'w') as f:
+            f.write(f'import UbxModel.Proofs.SrcEquiv.{c}\n' + ''.join(f'#print axioms SrcEquiv.{n}\n' for n in SRC_THEOREMS[c]))
+        try:
+            a = sh(['lake', 'env', 'lean', path], cwd=LEAN, timeout=300)
+        finally:
+            os.remove(path)
+        axs = {x.strip() for m in re.finditer(r"depends on axioms: \[([^\]]*)\]", a.stdout) for x in m.group(1).split(',') if x.strip()}
+        n = len(re.findall(r"'SrcEquiv\.", a.stdout))
+        if n != len(SRC_THEOREMS[c]) or not axs <= ALLOWED_AXIOMS:
+            res[c] = f'translated, equivalence built, but the audit covered {n} of {len(SRC_THEOREMS[c])} theorems / axioms {sorted(axs)}'
+        else:
+            res[c] = f'source translated on this run and proved equal to the model ({len(SRC_THEOREMS[c])} theorems: ' + ', '.join(SRC_THEOREMS[c]) + ')'
+    return res
+
+
 def lake_build(targets, timeout=1500):
     try:
         r = sh(['lake', 'build'] + targets, cwd=LEAN, timeout=timeout)
@@ -130,6 +181,7 @@ def build_and_audit(prop, tier):
         fb = forbidden_tokens()
         if fb:
             broken.append('forbidden token in the Lean sources: ' + ', '.join(fb))
+        info['source_tie'] = source_tie(prop)
     return broken, info
 
 
@@ -363,6 +415,8 @@ def evidence(prop, tier, seed, info, cases, n_spec, disagreements, failures, bro
         cov['exhaustive_part'] = spec['exhaustive_note']
     if 'leanchecker' in info:
         cov['leanchecker'] = info['leanchecker']
+    if info.get('source_tie'):
+        cov['source_tie'] = info['source_tie']
     if extra:
         cov.update(extra)
     ev = {'property_id': prop, 'tier': tier, 'seed': seed, 'level': 'proof', 'coverage': cov,
@@ -398,6 +452,12 @@ def main():
         comps = sorted({c['component'] for c in disagreements})
         broken.append(f'correspondence: model and code disagree on {len(disagreements)} of {len(cases)} cases (components {", ".join(comps)})')
     extra = None
+    src_doubt = [c for c, v in info.get('source_tie', {}).items() if not v.startswith('source translated')]
+    if src_doubt and not broken and not failures:
+        # the source no longer matches the model syntactically: not a verdict, but a reason to look harder
+        more, errs2, n2 = explore(prop, tier, seed + 104729, False, scale=2)
+        _, failures, _ = analyse(prop, more)
+        extra = {'search_after_source_tie_unavailable': {'classes': src_doubt, 'cases': len(more), 'failing_inputs': len(failures)}}
     if broken and not failures:
         # the tie is broken: search the implementation for an input on which the property itself fails
         more, errs2, n2 = explore(prop, 'thorough' if tier == 'thorough' else 'quick', seed + 7919, False,
@@ -473,6 +533,8 @@ def setup():
     t = translate()
     if t:
         print(t, file=sys.stderr)
+    print('source-level translation:', translate_source())
+    lake_build([f'UbxModel.Proofs.SrcEquiv.{c}' for c in SRC_THEOREMS])       # pre-built when it applies; not required
     ok, errs = lake_build(['UbxModel', 'driver', 'specdriver'])
     if not ok:
         print('setup: lake build failed: ' + ' | '.join(errs), file=sys.stderr)
